@@ -414,6 +414,7 @@ fn check_wall_result(
 }
 
 pub fn run(c: &mut Ctx) {
+    crate::aliases::c04(c);
     let mut fl = Fails(BTreeMap::new());
     let mut tl = Tally(BTreeMap::new());
     let thorough = c.tier == Tier::Thorough;
